@@ -185,6 +185,23 @@ def main():
         lines.append(f"| {prop} | {label.replace('|', '/')} | {expect} | {shown}{'' if ok else ' **UNEXPECTED**'} | {', '.join(kinds[:4])} |")
     lines.append("")
     lines.append(f"{len(results)} changes, {bad} unexpected results.")
+    lines += [
+        "",
+        "## Seeded changes (written by independent sub-agents that saw only the property text)",
+        "",
+        "Each was confirmed by me in its scratch worktree (existing test suite passes with the change; the agent's",
+        "demonstration fails with it and passes without it) before being kept under `seeded/<id>/`. `first result` is",
+        "what the checks did when the change was first run against them; `strengthening` says what was added when",
+        "they missed it (the rows above show the current result).",
+        "",
+        "| seeded change | property | what it needs to manifest | first result | strengthening |",
+        "|---|---|---|---|---|",
+    ]
+    for meta_path in sorted(glob.glob(os.path.join(ROOT, "seeded", "*", "meta.json"))):
+        meta = json.load(open(meta_path))
+        lines.append(
+            f"| {meta['id']} | {meta['property']} | {meta.get('needs', '').replace('|', '/')} | {meta.get('first_result', 'caught')} | {meta.get('strengthening', 'none needed').replace('|', '/')} |"
+        )
     if not args.only:
         with open(os.path.join(ROOT, "SENSITIVITY.md"), "w") as fh:
             fh.write("\n".join(lines) + "\n")
